@@ -42,7 +42,7 @@ PROPS["C17"] = dict(
     level_note="Trusted: Coq kernel + vm_compute; hand-written model tied by correspondence; time-based stale-buffer cleanup and the record layer "
                "beneath readHandshake are not in this model (C15/C09 cover the record layer).",
     code_names={1: "complete-disagrees-with-coverage", 2: "assembled-differs-from-message", 3: "fragment-range-check-wrong",
-                4: "reassembled-stream-differs-from-reference", 6: "sender-fragments-do-not-tile", 7: "handshake-record-exceeds-pmtu",
+                4: "reassembled-stream-differs-from-reference", 10: "pending-reassembly-buffers-above-bound", 6: "sender-fragments-do-not-tile", 7: "handshake-record-exceeds-pmtu",
                 8: "transcript-not-unfragmented-form", 9: "handshake-depends-on-pmtu", "panic": "panic"},
     assumptions=["fragments reach readHandshake as whole handshake fragments (record layer delivers handBuf bytes in order)"],
     trusted=["verif hooks VerifNewFragBuf, VerifReadHandshakes, VerifWriteHandshake (dtlcp)", "virtual-time network tk.VNet for the PMTU-pair runs"],
